@@ -99,6 +99,67 @@ func errCheckedAndReturned(ci *ssa.Call) (bool, string) {
 	if !good {
 		return false, "a non-nil error does not lead to an error return"
 	}
+	// no way around the nil test back to the call: a path from the call to itself that does not take an
+	// "error is nil" edge repeats the operation after a failure (e.g. `if err == errX { continue }`)
+	if compared {
+		nilEdge := map[*ssa.If]int{} // If -> successor index taken when the error is nil
+		mark := func(v ssa.Value) {
+			for _, r := range referrers(v) {
+				bo, ok := r.(*ssa.BinOp)
+				if !ok || !isNilConst(bo.Y) || (bo.Op != token.NEQ && bo.Op != token.EQL) {
+					continue
+				}
+				for _, r2 := range referrers(bo) {
+					if iff, ok := r2.(*ssa.If); ok {
+						if bo.Op == token.EQL {
+							nilEdge[iff] = 0
+						} else {
+							nilEdge[iff] = 1
+						}
+					}
+				}
+			}
+		}
+		mark(errV)
+		for _, r := range referrers(errV) {
+			if st, ok := r.(*ssa.Store); ok {
+				for _, r2 := range referrers(resolveAddr(st.Addr)) {
+					if u, ok := r2.(*ssa.UnOp); ok && u.Op == token.MUL {
+						mark(u)
+					}
+				}
+			}
+		}
+		if len(nilEdge) > 0 {
+			again := false
+			seen := map[*ssa.BasicBlock]bool{}
+			var walk func(b *ssa.BasicBlock, from int)
+			walk = func(b *ssa.BasicBlock, from int) {
+				for i := from; i < len(b.Instrs); i++ {
+					if b.Instrs[i] == ssa.Instruction(ci) {
+						again = true
+						return
+					}
+				}
+				iff, _ := terminator(b).(*ssa.If)
+				for si, sb := range b.Succs {
+					if iff != nil {
+						if ne, isTest := nilEdge[iff]; isTest && ne == si {
+							continue // the error is nil on this edge
+						}
+					}
+					if !seen[sb] {
+						seen[sb] = true
+						walk(sb, 0)
+					}
+				}
+			}
+			walk(ci.Block(), idxInBlock(ci)+1)
+			if again {
+				return false, "the operation is repeated on a path that never established that the error is nil"
+			}
+		}
+	}
 	return true, ""
 }
 
@@ -199,101 +260,7 @@ func runC19(c *Ctx) {
 
 	// ---------------------------------------------------------------- R2
 	c.rule("R2", "reader rebuilds every item field from the matching getter and stores under the dumped key / cache expiry", 5)
-	itemWritten := map[string]ssa.Value{}
-	var storeCall *ssa.Call
-	eachInstrDeep(rd, func(f *ssa.Function, in ssa.Instruction) {
-		if st, ok := in.(*ssa.Store); ok {
-			if k, ok := fieldKey(st.Addr); ok && strings.HasPrefix(k, IT+".") {
-				itemWritten[strings.TrimPrefix(k, IT+".")] = st.Val
-			}
-		}
-		if ci, ok := in.(*ssa.Call); ok && callName(ci) == "(*pkg/cache.Cache).Store" {
-			storeCall = ci
-		}
-	})
-	unixGetter := func(v ssa.Value, getter string) bool {
-		cl, ok := v.(*ssa.Call)
-		if !ok || callName(cl) != "time.Unix" {
-			return false
-		}
-		g, ok := cl.Call.Args[0].(*ssa.Call)
-		return ok && callName(g) == "(*"+CE+").Get"+getter
-	}
-	if v, ok := itemWritten["storedTime"]; ok {
-		c.check(unixGetter(v, "MsgStoredTime"), "item-field:storedTime", valuePos(v), "storedTime <- time.Unix(GetMsgStoredTime(),0)", "item.storedTime is rebuilt from "+exprStr(v))
-	} else {
-		c.fail("item-field:storedTime", rd.Pos(), "readDump does not set item.storedTime")
-	}
-	if v, ok := itemWritten["expirationTime"]; ok {
-		c.check(unixGetter(v, "MsgExpirationTime"), "item-field:expirationTime", valuePos(v), "expirationTime <- time.Unix(GetMsgExpirationTime(),0)", "item.expirationTime is rebuilt from "+exprStr(v))
-	} else {
-		c.fail("item-field:expirationTime", rd.Pos(), "readDump does not set item.expirationTime")
-	}
-	if v, ok := itemWritten["resp"]; ok {
-		// a fresh message that Unpack(GetMsg()) was called on
-		good := false
-		if al, ok := v.(*ssa.Alloc); ok {
-			for _, r := range referrers(al) {
-				if cl, ok := r.(*ssa.Call); ok && callName(cl) == "(*github.com/miekg/dns.Msg).Unpack" && cl.Call.Args[0] == ssa.Value(al) {
-					if g, ok := cl.Call.Args[1].(*ssa.Call); ok && callName(g) == "(*"+CE+").GetMsg" {
-						good = true
-					}
-				}
-			}
-		}
-		c.check(good, "item-field:resp", valuePos(v), "resp <- fresh message unpacked from GetMsg()", "item.resp is not a fresh message unpacked from the entry's Msg bytes")
-	} else {
-		c.fail("item-field:resp", rd.Pos(), "readDump does not set item.resp")
-	}
-	if storeCall == nil {
-		c.anchorMissing("backend.Store call in readDump")
-	} else {
-		a := storeCall.Call.Args
-		keyOK := false
-		if cv, ok := a[1].(*ssa.Convert); ok {
-			if g, ok := cv.X.(*ssa.Call); ok && callName(g) == "(*"+CE+").GetKey" {
-				keyOK = true
-			}
-		}
-		c.check(keyOK, "store-key", instrPos(storeCall), "stored under key(GetKey())", "the reloaded entry is not stored under the dumped key")
-		c.check(unixGetter(a[3], "CacheExpirationTime"), "store-expiry", instrPos(storeCall), "stored with the dumped cache expiry", "the reloaded entry is not stored with the dumped cache expiry: "+exprStr(a[3]))
-		// every decoded entry reaches the store: within the entry loop the only conditions in front of the Store are
-		// the loop's own and "no decode error" (errors return); no entry is skipped silently
-		extra := ""
-		hdr := innermostLoopHeader(storeCall.Block())
-		if hdr == nil {
-			c.undecided("store-every-entry", instrPos(storeCall), "the store is not inside an entry loop")
-		}
-		for _, g := range guardsOfInstr(storeCall) {
-			if hdr == nil || !hdr.Dominates(g.If.Block()) {
-				continue // conditions in front of the loop (block header checks)
-			}
-			if cm, ok := g.asCmp(); ok {
-				if isNilConst(cm.Y) && cm.X.Type().String() == "error" && cm.Op == token.EQL {
-					continue
-				}
-				// range-over-slice loop: index < len
-				if cm.Op == token.LSS {
-					if _, isPhi := cm.X.(*ssa.Phi); isPhi {
-						continue
-					}
-					if bo, ok := cm.X.(*ssa.BinOp); ok && bo.Op == token.ADD {
-						continue
-					}
-				}
-			}
-			if v, _ := g.asBool(); v != nil {
-				if ex, ok := v.(*ssa.Extract); ok {
-					if _, isNext := ex.Tuple.(*ssa.Next); isNext {
-						continue
-					}
-				}
-			}
-			extra = guardText(g)
-		}
-		c.check(extra == "", "store-every-entry", instrPos(storeCall), "every decoded entry is handed to the store (expiry is judged there)",
-			"decoded entries are stored only under "+extra+": live entries of an intact dump are dropped on reload without an error")
-	}
+	checkDumpReaderFields(c, rd)
 
 	// ---------------------------------------------------------------- R3
 	c.rule("R3", "the block buffer size is within [0, dumpMaximumBlockLength] on every path to its allocation", 1)
@@ -471,6 +438,238 @@ func runC19(c *Ctx) {
 		c.check(g, "store-refuses-expired", stF.Pos(), "Store is a no-op for entries expiring before now", "Store admits entries that are already expired (a stale dump resurrects dead answers)")
 	}
 
+	// ---------------------------------------------------------------- R8
+	c.rule("R8", "the writer never produces a block the reader refuses: a block is flushed once its collected payload reaches a constant bound that leaves room for one maximal entry below the reader's block-length limit", 1)
+	if rangeFn != nil {
+		key := "writer-block-bound"
+		// the reader's limit: the constant the decoded block length is compared with before the allocation
+		limit := int64(-1)
+		eachInstrDeep(rd, func(f *ssa.Function, in ssa.Instruction) {
+			bo, ok := in.(*ssa.BinOp)
+			if !ok || bo.Op != token.GTR {
+				return
+			}
+			if cl, ok := bo.X.(*ssa.Call); ok && callName(cl) == "(encoding/binary.bigEndian).Uint64" {
+				if n, ok := constInt(bo.Y); ok {
+					limit = n
+				}
+			}
+		})
+		// the flush: calls of the block-writing closure inside the range callback
+		var flush *ssa.Call
+		var flushFn *ssa.Function
+		eachInstr(rangeFn, func(in ssa.Instruction) {
+			ci, ok := in.(*ssa.Call)
+			if !ok || ci.Call.IsInvoke() {
+				return
+			}
+			sc := staticCallee(ci)
+			if sc == nil {
+				// a closure kept in a captured local variable
+				tr := p.newTracer()
+				tr.throughCalls, tr.throughParams, tr.throughFields = false, false, false
+				for _, o := range tr.origins(ci.Call.Value) {
+					if mc, ok := o.(*ssa.MakeClosure); ok {
+						sc, _ = mc.Fn.(*ssa.Function)
+					}
+				}
+			}
+			if sc != nil && sc.Parent() == wd && sc != rangeFn {
+				flush, flushFn = ci, sc
+			}
+		})
+		if limit < 0 || flush == nil {
+			c.anchorMissing("reader block-length limit / flush call in the range callback")
+		} else {
+			// conditions on the edges into the flush block: one of them must be  acc >= B  with acc a captured
+			// counter that grows by len(Msg) for every appended entry and is reset by the flush
+			good, why := false, "the block is flushed only by entry count"
+			var preds []*ssa.BasicBlock
+			preds = append(preds, flush.Block().Preds...)
+			for _, pb := range preds {
+				iff, ok := terminator(pb).(*ssa.If)
+				if !ok {
+					continue
+				}
+				g := guard{Cond: iff.Cond, Truth: succOnTruth(iff, true) == flush.Block(), If: iff}
+				cm, ok := g.asCmp()
+				if !ok || (cm.Op != token.GEQ && cm.Op != token.GTR) {
+					continue
+				}
+				B, ok := constInt(cm.Y)
+				if !ok {
+					continue
+				}
+				ld, ok := cm.X.(*ssa.UnOp)
+				if !ok || ld.Op != token.MUL {
+					continue
+				}
+				fv, ok := ld.X.(*ssa.FreeVar)
+				if !ok {
+					continue
+				}
+				// grows by len(...Msg) in the callback
+				grows := false
+				eachInstr(rangeFn, func(in ssa.Instruction) {
+					st, ok := in.(*ssa.Store)
+					if !ok || st.Addr != ssa.Value(fv) {
+						return
+					}
+					if strings.Contains(exprStr(st.Val), "builtin:len") && strings.Contains(exprStr(st.Val), "Msg") && instrDominates(st, terminator(pb)) {
+						grows = true
+					}
+				})
+				// reset by the flush closure
+				reset := false
+				if sc := flushFn; sc != nil {
+					for i, fv2 := range sc.FreeVars {
+						_ = i
+						if fv2.Name() != fv.Name() {
+							continue
+						}
+						eachInstr(sc, func(in ssa.Instruction) {
+							if st, ok := in.(*ssa.Store); ok && st.Addr == ssa.Value(fv2) {
+								if n, ok := constInt(st.Val); ok && n == 0 {
+									reset = true
+								}
+							}
+						})
+					}
+				}
+				const maxEntry = 65535 + 1024 // a maximal message plus key and protobuf overhead
+				switch {
+				case !grows:
+					why = "the compared counter does not grow by the size of every appended message"
+				case !reset:
+					why = "the counter is not reset when the block is written"
+				case B+maxEntry > limit:
+					why = fmt.Sprintf("the bound %d plus one maximal entry exceeds the reader's limit %d", B, limit)
+				default:
+					good = true
+				}
+			}
+			c.check(good, key, instrPos(flush), fmt.Sprintf("payload counter >= bound flushes the block; bound + one maximal entry <= reader limit %d", limit),
+				why+": a block of large answers grows beyond what readDump accepts, and an intact dump fails to load")
+		}
+	}
+
+	// ---------------------------------------------------------------- R10
+	c.rule("R10", "the writer leaves nothing out: every entry that is not expired is appended to a block, the last partial block is written, and the reader's block limit is a small constant", 3)
+	if rangeFn != nil {
+		var app ssa.Instruction
+		eachInstr(rangeFn, func(in ssa.Instruction) {
+			if st, ok := in.(*ssa.Store); ok {
+				if k, _ := fieldKey(st.Addr); strings.HasSuffix(k, ".CacheDumpBlock.Entries") {
+					app = in
+				}
+			}
+		})
+		if app == nil {
+			c.anchorMissing("append to block.Entries in the range callback")
+		} else {
+			bad := ""
+			for _, r := range returnsOf(rangeFn) {
+				rv := returnedValues(r)
+				if len(rv) == 0 || !isNilConst(rv[len(rv)-1]) {
+					continue // error returns abort the dump
+				}
+				if instrDominates(app, r) {
+					continue
+				}
+				expired := false
+				for _, g := range guardsOfInstr(r) {
+					if v, truth := g.asBool(); truth {
+						if cl, ok := v.(*ssa.Call); ok && callName(cl) == "(time.Time).Before" && cl.Call.Args[0] == ssa.Value(rangeFn.Params[2]) {
+							expired = true
+						}
+					}
+				}
+				if !expired {
+					bad = p.pos(instrPos(r))
+				}
+			}
+			c.check(bad == "", "writer-appends-every-live-entry", instrPos(app), "only entries whose cache expiry has passed are left out", "the writer skips entries for another reason than 'cache expiry passed' (return nil before the append at "+bad+"): live entries (e.g. all lazily kept ones) are missing from the dump")
+		}
+		// the final flush
+		var lastFlush *ssa.Call
+		eachInstr(wd, func(in ssa.Instruction) {
+			ci, ok := in.(*ssa.Call)
+			if !ok || ci.Call.IsInvoke() {
+				return
+			}
+			if mc, ok := ci.Call.Value.(*ssa.MakeClosure); ok {
+				if fn, ok := mc.Fn.(*ssa.Function); ok && fn.Parent() == wd && fn != rangeFn {
+					lastFlush = ci
+				}
+			} else if staticCallee(ci) == nil {
+				tr := p.newTracer()
+				tr.throughCalls, tr.throughParams, tr.throughFields = false, false, false
+				for _, o := range tr.origins(ci.Call.Value) {
+					if mc, ok := o.(*ssa.MakeClosure); ok {
+						if fn, ok := mc.Fn.(*ssa.Function); ok && fn.Parent() == wd && fn != rangeFn {
+							lastFlush = ci
+						}
+					}
+				}
+			}
+		})
+		if lastFlush == nil {
+			c.fail("writer-final-flush", wd.Pos(), "the entries collected after the last full block are never written")
+		} else {
+			exact := false
+			for _, g := range guardsOfInstr(lastFlush) {
+				if cm, ok := g.asCmp(); ok && cm.Op == token.GTR {
+					if n, isC := constInt(cm.Y); isC && n == 0 {
+						if cl, ok := cm.X.(*ssa.Call); ok && callName(cl) == "builtin:len" {
+							exact = true
+						}
+					}
+				}
+			}
+			c.check(exact, "writer-final-flush", instrPos(lastFlush), "the last partial block is written whenever it holds entries", "the final block is not written under exactly 'it holds entries' (len > 0): the entries after the last full block are missing from the dump")
+		}
+		lim := int64(-1)
+		eachInstrDeep(rd, func(f *ssa.Function, in ssa.Instruction) {
+			if bo, ok := in.(*ssa.BinOp); ok && bo.Op == token.GTR {
+				if cl, ok := bo.X.(*ssa.Call); ok && callName(cl) == "(encoding/binary.bigEndian).Uint64" {
+					if n, ok := constInt(bo.Y); ok {
+						lim = n
+					}
+				}
+			}
+		})
+		c.check(lim > 0 && lim <= 1<<24, "reader-limit-small", rd.Pos(), fmt.Sprintf("the reader refuses blocks over %d bytes", lim), fmt.Sprintf("the reader's block limit is %d: an arbitrary file can make it allocate that much", lim))
+	}
+
+	// ---------------------------------------------------------------- R9
+	c.rule("R9", "the dump is one gzip stream: one writer, closed once at the very end (its error returned), never reset or closed per block — so a cut anywhere is a decoding error, not a clean end", 1)
+	{
+		nNew, nClose, nOther := 0, 0, ""
+		closeInMain := false
+		eachInstrDeep(wd, func(f *ssa.Function, in ssa.Instruction) {
+			ci, ok := in.(ssa.CallInstruction)
+			if !ok {
+				return
+			}
+			cn := callName(ci)
+			switch {
+			case strings.HasSuffix(cn, "/gzip.NewWriterLevel") || strings.HasSuffix(cn, "/gzip.NewWriter"):
+				nNew++
+			case strings.HasSuffix(cn, "/gzip.Writer).Close"):
+				nClose++
+				if f == wd {
+					if _, cyc := reachAvoiding(in, func(x ssa.Instruction) bool { return x == in }, nil); !cyc {
+						closeInMain = true
+					}
+				}
+			case strings.HasSuffix(cn, "/gzip.Writer).Reset") || strings.HasSuffix(cn, "/gzip.Writer).Flush"):
+				nOther = cn
+			}
+		})
+		c.check(nNew == 1 && nClose == 1 && closeInMain && nOther == "", "single-gzip-member", wd.Pos(), "one gzip writer, one Close at the end of writeDump",
+			fmt.Sprintf("the dump is not written as one gzip stream (writers: %d, Close calls: %d, final Close in writeDump outside loops: %v, %s): a dump cut at a member boundary reads as a clean end and loads partially without an error", nNew, nClose, closeInMain, nOther))
+	}
+
 	// ---------------------------------------------------------------- R7
 	c.rule("R7", "every stored message can be packed again: entries are stored without their OPT record, so only rcodes that fit the 4-bit header field (0..15) are admitted", 1)
 	if save := c.fn(relCachePlugin, "", "saveRespToCache"); save != nil {
@@ -543,4 +742,125 @@ func innermostLoopHeader(b *ssa.BasicBlock) *ssa.BasicBlock {
 		}
 	}
 	return nil
+}
+
+// checkDumpReaderFields (C19-R2, C05-R10): the dump reader rebuilds every item field from the matching getter
+// (stored time, message expiry, message) and stores under the dumped key / cache expiry, for every decoded entry.
+func checkDumpReaderFields(c *Ctx, rd *ssa.Function) {
+	CE := relCachePlugin + ".CachedEntry"
+	IT := relCachePlugin + ".item"
+	itemWritten := map[string]ssa.Value{}
+	var storeCall *ssa.Call
+	eachInstrDeep(rd, func(f *ssa.Function, in ssa.Instruction) {
+		if st, ok := in.(*ssa.Store); ok {
+			if k, ok := fieldKey(st.Addr); ok && strings.HasPrefix(k, IT+".") {
+				itemWritten[strings.TrimPrefix(k, IT+".")] = st.Val
+			}
+		}
+		if ci, ok := in.(*ssa.Call); ok && callName(ci) == "(*pkg/cache.Cache).Store" {
+			storeCall = ci
+		}
+	})
+	unixGetter := func(v ssa.Value, getter string) bool {
+		cl, ok := v.(*ssa.Call)
+		if !ok || callName(cl) != "time.Unix" {
+			return false
+		}
+		g, ok := cl.Call.Args[0].(*ssa.Call)
+		return ok && callName(g) == "(*"+CE+").Get"+getter
+	}
+	if v, ok := itemWritten["storedTime"]; ok {
+		c.check(unixGetter(v, "MsgStoredTime"), "item-field:storedTime", valuePos(v), "storedTime <- time.Unix(GetMsgStoredTime(),0)", "item.storedTime is rebuilt from "+exprStr(v))
+	} else {
+		c.fail("item-field:storedTime", rd.Pos(), "readDump does not set item.storedTime")
+	}
+	if v, ok := itemWritten["expirationTime"]; ok {
+		c.check(unixGetter(v, "MsgExpirationTime"), "item-field:expirationTime", valuePos(v), "expirationTime <- time.Unix(GetMsgExpirationTime(),0)", "item.expirationTime is rebuilt from "+exprStr(v))
+	} else {
+		c.fail("item-field:expirationTime", rd.Pos(), "readDump does not set item.expirationTime")
+	}
+	if v, ok := itemWritten["resp"]; ok {
+		// a fresh message that Unpack(GetMsg()) was called on
+		good := false
+		if al, ok := v.(*ssa.Alloc); ok {
+			for _, r := range referrers(al) {
+				if cl, ok := r.(*ssa.Call); ok && callName(cl) == "(*github.com/miekg/dns.Msg).Unpack" && cl.Call.Args[0] == ssa.Value(al) {
+					if g, ok := cl.Call.Args[1].(*ssa.Call); ok && callName(g) == "(*"+CE+").GetMsg" {
+						good = true
+					}
+				}
+			}
+			// and nothing else touches it between decoding and storing (no TTL ageing, no rewriting)
+			for _, r := range referrers(al) {
+				switch x := r.(type) {
+				case *ssa.DebugRef:
+				case *ssa.Call:
+					if callName(x) != "(*github.com/miekg/dns.Msg).Unpack" {
+						good = false
+					}
+				case *ssa.Store:
+					if x.Val != ssa.Value(al) {
+						good = false
+					}
+				default:
+					good = false
+				}
+			}
+		}
+		c.check(good, "item-field:resp", valuePos(v), "resp <- fresh message unpacked from GetMsg()", "item.resp is not a fresh message unpacked from the entry's Msg bytes")
+	} else {
+		c.fail("item-field:resp", rd.Pos(), "readDump does not set item.resp")
+	}
+	if storeCall == nil {
+		c.anchorMissing("backend.Store call in readDump")
+	} else {
+		a := storeCall.Call.Args
+		keyOK := false
+		if cv, ok := a[1].(*ssa.Convert); ok {
+			if g, ok := cv.X.(*ssa.Call); ok && callName(g) == "(*"+CE+").GetKey" {
+				keyOK = true
+			}
+		}
+		c.check(keyOK, "store-key", instrPos(storeCall), "stored under key(GetKey())", "the reloaded entry is not stored under the dumped key")
+		c.check(unixGetter(a[3], "CacheExpirationTime"), "store-expiry", instrPos(storeCall), "stored with the dumped cache expiry", "the reloaded entry is not stored with the dumped cache expiry: "+exprStr(a[3]))
+		// every decoded entry reaches the store: within the entry loop the only conditions in front of the Store are
+		// the loop's own and "no decode error" (errors return); no entry is skipped silently
+		extra := ""
+		hdr := innermostLoopHeader(storeCall.Block())
+		if hdr == nil {
+			c.undecided("store-every-entry", instrPos(storeCall), "the store is not inside an entry loop")
+		}
+		for _, g := range guardsOfInstr(storeCall) {
+			if hdr == nil || !hdr.Dominates(g.If.Block()) {
+				continue // conditions in front of the loop (block header checks)
+			}
+			if cm, ok := g.asCmp(); ok {
+				if isNilConst(cm.Y) && cm.X.Type().String() == "error" && cm.Op == token.EQL {
+					continue
+				}
+				// range-over-slice loop: index < len
+				if cm.Op == token.LSS {
+					if _, isPhi := cm.X.(*ssa.Phi); isPhi {
+						continue
+					}
+					if bo, ok := cm.X.(*ssa.BinOp); ok && bo.Op == token.ADD {
+						continue
+					}
+				}
+			}
+			if v, _ := g.asBool(); v != nil {
+				if ex, ok := v.(*ssa.Extract); ok {
+					if _, isNext := ex.Tuple.(*ssa.Next); isNext {
+						continue
+					}
+				}
+			}
+			extra = guardText(g)
+		}
+		if sk, _ := iterationCanSkip(storeCall, nil); sk && extra == "" {
+			extra = "a condition that lets an iteration of the entry loop go on to the next entry without storing"
+		}
+		c.check(extra == "", "store-every-entry", instrPos(storeCall), "every decoded entry is handed to the store (expiry is judged there)",
+			"decoded entries are stored only under "+extra+": live entries of an intact dump are dropped on reload without an error")
+	}
 }
